@@ -2,6 +2,7 @@ SPECIFICATION Spec
 CONSTANTS Pool <- PoolA  Probes <- ProbesA  MaxIns = 3  MaxBatch = 2  Modes <- AllModes  SortVariant = "offset"  EmptyGuard = TRUE
 INVARIANT NoOOB
 INVARIANT QueriesExact
+INVARIANT TreeQueryExact
 INVARIANT WellFormed
 INVARIANT RefinesJudge
 INVARIANT RootBoxIsUnion
